@@ -213,7 +213,7 @@ NAMES = ['NeoHooke(mu,bulk)', 'NeoHooke(mu)', 'Volumetric(bulk)', 'NeoHookeCompr
          'jax.extended_tube[delta=0]', 'jax.miehe_goektepe_lulei', 'tt.finite_strain_viscoelastic', 'tt.ogden_roxburgh(neo_hooke)',
          'tt.lagrange.morph', 'tt.lagrange.morph_representative_directions', 'tt.hyperelastic.morph_representative_directions',
          'jax.lagrange.morph', 'jax.lagrange.morph_representative_directions', 'tt.total_lagrange(neo-hooke S)',
-         'tt.updated_lagrange(neo-hooke sigma)']
+         'tt.updated_lagrange(neo-hooke sigma)', 'jax.total_lagrange(neo-hooke S)', 'jax.updated_lagrange(neo-hooke sigma)']
 ENERGY = [n for n in NAMES if n.startswith(("NeoHooke", "Volumetric", "LinearElasticLarge")) or
           (n.startswith(("tt.", "jax.")) and not any(k in n for k in ("alexander", "viscoelastic", "ogden_roxburgh", "morph", "lagrange")))]
 
